@@ -221,7 +221,8 @@ CrUpdate(NE, NI) ==
     \* ---- C08: an interface created since the last published record and still existing is recorded (in use or for deletion)
     /\ G("C08", wr # "fail" => \A e \in fresh : cloud[e].on => HasEni(NE, e))
     /\ crE' = NE /\ crI' = NI /\ fresh' = {}
-    /\ rg' = { r \in rg : \E y \in Bound(NI) : y.e = r[1] /\ y.a = r[2] }                            \* the exemption lasts while the record still binds it
+    /\ rg' = { r \in rg : (\E y \in Bound(NI) : y.e = r[1] /\ y.a = r[2])                             \* the exemption lasts while the record still binds it
+                           \/ (\E u \in Uids : up[u] /\ given[u].e = r[1] /\ r[2] \in {given[u].a4, given[u].a6}) }   \* or a sandbox still holds it
     /\ UNCHANGED <<conf, cloud, pods, rt, up, given, delp, told, absent, seen, wr, healthy>>
 
 (* ------------------------------------------------------------------ controller: OpenAPI calls *)
